@@ -3,6 +3,7 @@ import AkVerif.Lemmas.SqlFilter
 import AkVerif.Lemmas.SqlFilterText
 import AkVerif.Lemmas.SqlFilterSort
 import AkVerif.Lemmas.SqlFilterOrder
+import AkVerif.Lemmas.SqlFilterBound
 /-!
 # C15 — SQL filters select exactly the intended rows; values are always bound
 
@@ -12,7 +13,9 @@ far as `cursor.execute(p.text, p.params)`; `p.conj` is the WHERE clause as a tin
 (`render`, clause tables regenerated from the source into `Gen.C15`) is part of `p.text`.
 
 Modelled, not verified: that SQLite evaluates the text of `p.conj` as `sem` says (3-valued logic,
-untyped columns, `LIKE`); that sqlite3 refuses to bind a list/tuple/set. Both are exercised by the
+untyped columns, `LIKE`); that sqlite3 refuses to bind a list/tuple/set; that the driver writes an
+adapted object (`Value.obj`) as the image carried with it; the value SQLite computes per row for a
+static condition text and for an ORDER BY key expression (supplied with the table). Both are exercised by the
 correspondence run against a real in-memory database.
 -/
 namespace C15
@@ -56,8 +59,10 @@ theorem option_keys (k : Str) :
   simp [isOptionKey, show Gen.C15.orderKey = "_order_by".toList from by decide,
     show Gen.C15.scalarsKey = "_as_scalars".toList from by decide]
 
-/-- A call never fails in another way than: `ValueError` / `AttributeError` from a condition
-constructor, sqlite3 refusing a parameter, or `TypeError` when `_order_by` is neither `None` nor a
+/-- A call whose conditions name their fields by a `str` (the model's `Cond` type; the real code
+raises `AssertionError` for a `(None, op, value)` tuple and `TypeError` for a field that is not a
+`str`, such as `(5, '=', 1)` — both outside the model) never fails in another way than:
+`ValueError` / `AttributeError` from a condition constructor, sqlite3 refusing a parameter, or `TypeError` when `_order_by` is neither `None` nor a
 `str`. In particular no clause lookup fails (`KeyError`), whatever the operation, the flavour and
 the shape of the conditions. -/
 theorem only_rejections (pct : Bool) (st : Stmt) (call : Call) (e : Fail)
@@ -222,10 +227,10 @@ theorem in_semantics (x : Value) (vs : List Value) :
       intro ws
       induction ws with
       | nil => exact Or.inl rfl
-      | cons w ws ih => right; rcases ih with h | h <;> simp [inSem, cmp3, h, Tri.or]
+      | cons w ws ih => right; rcases ih with h | h <;> simp [inSem, cmp3, cmpDb, Value.db, h, Tri.or]
     cases vs with
     | nil => exact absurd rfl hne
-    | cons v vs => rcases key vs with h | h <;> simp [inSem, cmp3, h, Tri.or]
+    | cons v vs => rcases key vs with h | h <;> simp [inSem, cmp3, cmpDb, Value.db, h, Tri.or]
 
 /-- What a call returns. If `run` answers `res`, then the statement was prepared; the ORDER BY
 text in effect is the rendering of `order`; every row of the table gives a value to every column
@@ -301,6 +306,54 @@ theorem value_order :
     (∀ o r s t, rowBefore o r s = some true → rowBefore o s t = some true → rowBefore o r t = some true) :=
   ⟨vLt_irrefl, vLt_trans, vLt_total, fun _ _ _ => ⟨rfl, rfl, rfl, rfl⟩, fun i j => by simp [vLt],
    rowBefore_asymm, rowBefore_trans⟩
+
+/-- The values that reach `cursor.execute` are the caller's own objects: every bound value is one of
+the values written in the call (in a condition, an OR group, a keyword filter), handed over as it is —
+an `int` as that `int`, a `str` as that `str`, and an object of another class (a `datetime`, a `date`,
+an object with `__conform__` or a registered adapter: `Value.obj`) as that very object, never as a
+text made of it. Adapting it is left to the driver; the comparison then sees the driver's image of the
+object (`Value.db`), for every comparison operator and inside `IN` lists. -/
+theorem bound_values_are_callers (pct : Bool) (st : Stmt) (call : Call) (p : Prepared)
+    (h : prepare pct st call = .ok p) :
+    (∀ v ∈ p.params, v ∈ call.values) ∧
+    (∀ c x k s, cmp3 c x (.obj k s) = cmp3 c x (.text s)) ∧
+    (∀ x k s vs, inSem x (.obj k s :: vs) = (cmp3 .eq x (.text s)).or (inSem x vs)) ∧
+    (∀ k s t, Value.obj k s ≠ Value.text t) :=
+  ⟨prepare_values h, fun _ _ _ _ => rfl, fun _ _ _ _ => rfl, fun _ _ _ h => by cases h⟩
+
+/-- The ORDER BY text is the caller's and reaches the statement as written: the statement text is
+SELECT…FROM, the WHERE part, the GROUP BY part and then ` ORDER BY ` followed, character by character,
+by the text in effect (`_order_by` of the call if given, else the default; nothing if that is `None`)
+— whatever the text is: a column, `col DESC`, an expression such as `-col` or `ABS(col)`, several
+items. Nothing in it is split, trimmed or re-spelled, so what the text means is what SQL says it
+means. -/
+theorem order_text_verbatim (pct : Bool) (st : Stmt) (call : Call) (p : Prepared)
+    (h : prepare pct st call = .ok p) :
+    ∃ ts ord, renders pct p.conj = .ok ts ∧ orderClause st call.kwargs = .ok ord ∧
+      (∀ a, lookupKw Gen.C15.orderKey call.kwargs = some a → (a = .scalar .null ∧ ord = none) ∨
+        ∃ o, a = .scalar (.text o) ∧ ord = some o) ∧
+      (lookupKw Gen.C15.orderKey call.kwargs = none → ord = st.orderBy) ∧
+      p.text = st.selectFrom ++ wherePart ts ++ groupPart st ++
+        (match ord with
+         | some o => " ORDER BY ".toList ++ o
+         | none => []) := by
+  obtain ⟨ts, ord, hr, ho, ht⟩ := prepare_text h
+  have hpfx : Gen.C15.orderPfx = " ORDER BY ".toList := by decide
+  refine ⟨ts, ord, hr, ho, ?_, ?_, by rw [ht]; cases ord <;> simp [hpfx]⟩
+  · intro a ha
+    simp only [orderClause, ha] at ho
+    split at ho <;> simp_all
+  · intro hn
+    simpa [orderClause, hn] using ho.symm
+
+/-- A key of the ORDER BY in effect is an opaque expression of the caller: which of two rows comes
+first depends on a key only through the values SQLite computed for that key text on the two rows
+(supplied with the table), compared in SQLite's order of values; the text of a key is never looked
+into — a leading minus sign is part of the expression, not a direction. -/
+theorem order_keys_opaque (o : OrderSpec) (r s r' s' : Cells)
+    (h : ∀ kd ∈ o, r.get? kd.1 = r'.get? kd.1 ∧ s.get? kd.1 = s'.get? kd.1) :
+    rowBefore o r s = rowBefore o r' s' :=
+  rowBefore_congr o r s r' s' h
 
 /-- `satisfied` is the right-hand side of `selects` -/
 theorem satisfied_iff (row : Row) (call : Call) :
@@ -441,6 +494,53 @@ example : (prepare true exStmt
       { args := [some (.raw "note = 'why?'".toList), some (.triple "\"ok?\"".toList "in".toList (.list [.int 1, .int 2]))],
         kwargs := [] }).map (fun p => (p.text, p.params.length)) =
     .ok ("SELECT id FROM t WHERE  note = 'why?'  AND \"ok?\" IN (%s, %s) ORDER BY id".toList, 2) := by
+  decide +kernel
+
+/-- a `datetime` operand (class 0, image = what the driver writes for it) is bound as the object
+itself, singly and inside an `IN` list; `LIKE` refuses it as the code does (not a `str`) -/
+private def exDt : Value := .obj 0 "2024-01-02 03:04:05".toList
+
+example : (prepare false exStmt
+      { args := [some (.triple "c".toList ">=".toList (.scalar exDt)),
+                 some (.triple "b".toList "in".toList (.list [exDt, .int 1]))], kwargs := [("a".toList, .scalar exDt)] }).map
+    (fun p => (p.text, p.params)) =
+    .ok ("SELECT id FROM t WHERE c >= ? AND b IN (?, ?) AND a = ? ORDER BY id".toList, [exDt, exDt, .int 1, exDt]) := by
+  decide +kernel
+
+example : (prepare false exStmt { args := [some (.triple "c".toList "LIKE".toList (.scalar exDt))], kwargs := [] }).map
+    (·.text) = .error (.py .valueError) := by decide +kernel
+
+private def exEvents : List Cells :=
+  [[("id".toList, .int 1), ("c".toList, .text "2024-01-02 03:04:05".toList), ("-c".toList, .int (-2024))],
+   [("id".toList, .int 2), ("c".toList, .text "2024-01-02T03:04:05".toList), ("-c".toList, .int (-2024))],
+   [("id".toList, .int 3), ("c".toList, .null), ("-c".toList, .null)],
+   [("id".toList, .int 4), ("c".toList, .text "2024-01-02 23:00:00".toList), ("-c".toList, .int (-2024))]]
+
+/-- `c = <datetime>` selects the row written by the same driver (blank between date and time), not the
+row that holds the `T` spelling; `c >= <datetime>` selects rows 1, 2, 4 -/
+example : (run false exStmt (some [("id".toList, false)])
+      { args := [some (.pair "c".toList (.scalar exDt))], kwargs := [] } .list exEvents).map
+    (fun r => r.map fun rows => rows.map fun c => c.get? "id".toList) = .ok (some [some (.int 1)]) := by
+  decide +kernel
+
+example : (run false exStmt (some [("id".toList, false)])
+      { args := [some (.triple "c".toList ">=".toList (.scalar exDt))], kwargs := [] } .list exEvents).map
+    (fun r => r.map fun rows => rows.map fun c => c.get? "id".toList) =
+    .ok (some [some (.int 1), some (.int 2), some (.int 4)]) := by
+  decide +kernel
+
+/-- `_order_by="-c, id DESC"`: the key `-c` is an expression (its value per row is supplied: NULL for
+the NULL cell, which sorts first; -2024 for the texts, a tie decided by `id DESC`), not `c DESC`; the
+text reaches the statement as written -/
+example : (run false exStmt (some [("-c".toList, false), ("id".toList, true)])
+      { args := [], kwargs := [("_order_by".toList, .scalar (.text "-c, id DESC".toList))] } .list exEvents).map
+    (fun r => r.map fun rows => rows.map fun c => c.get? "id".toList) =
+    .ok (some [some (.int 3), some (.int 4), some (.int 2), some (.int 1)]) := by
+  decide +kernel
+
+example : (prepare false exStmt
+      { args := [], kwargs := [("_order_by".toList, .scalar (.text "-c, id DESC".toList))] }).map (·.text) =
+    .ok "SELECT id FROM t ORDER BY -c, id DESC".toList := by
   decide +kernel
 
 end examples
